@@ -42,13 +42,13 @@ class C13(Machine):
         return []
 
     def on_budget(self, world, st, op, out, step):
-        return [viol(self.ID, "work_budget_exceeded", step, {"op": op, "where": out.get("where"), "work": out.get("work"), "nodes": len(world.sd), "n": world.ref.n}, site=out.get("where"))]
+        return [viol(self.ID, "work_budget_exceeded", step, {"op": op, "where": out.get("where"), "work": out.get("work"), "nodes": len(world.sd), "n": world.ref.n}, site=op["op"])]
 
     def run(self, sc):
         res = super().run(sc)
         # construction overrun is also a C13 violation
         if res.get("construct_cls") == "budget_exceeded" and not res["violations"]:
-            res["violations"] = [viol(self.ID, "work_budget_exceeded", 0, {"op": {"op": "construct"}, "where": res["budget_exceeded"][0].get("where")}, site=res["budget_exceeded"][0].get("where"))]
+            res["violations"] = [viol(self.ID, "work_budget_exceeded", 0, {"op": {"op": "construct"}, "where": res["budget_exceeded"][0].get("where")}, site="construct")]
         return res
 
     def classify(self, res, world, st):
